@@ -24,7 +24,7 @@ RULE = ("all registered tunings (incl. course tunings) x every string x notes 0.
         "compositions on the non-course tunings at page widths 40..160, decoded by an own tab reader. Non-trivial: a tuning with >= 4 "
         "strings and a note reachable on >= 2 strings; a fingering query with >= 2 notes and a non-empty answer; a tab with a two-digit "
         "fret or >= 2 bars."
-        ' Also: returned notes / containers are modified before the fret table is asked again; calls that fail half-way precede fingering queries; notes carrying string / fret attributes from the same or another tuning; tracks whose own tuning differs from the one passed explicitly.')
+        ' Also: returned notes / containers are modified before the fret table is asked again; calls that fail half-way precede fingering queries; notes carrying string / fret attributes from the same or another tuning; tracks whose own tuning differs from the one passed explicitly; one Bar object standing in two tracks of a composition that are played on different tunings; the best chord fingering returned as a container of notes (return_best_as_NoteContainer) checked through the notes' string / fret attributes.')
 ASSUMPTIONS = ["tablature is rendered for tunings without courses only; empty bars / containers are not rendered",
                "the decode clause is applied when every entry gets at least (fret digits + 1) columns, measured on the rendered "
                "beat-marker line; narrower tabs still count for the equal-line-length clause",
@@ -215,6 +215,21 @@ def check_chord_fingering(ctx, case):
         if non:
             ctx.check(max(non) - min(non) < md, "chord_fingering/span", lambda: "%r: %r" % (case, fing))
             ctx.check(len(set(non)) <= maxfing, "chord_fingering/fingers", lambda: "%r: %r needs more than %d fingers" % (case, fing, maxfing))
+    if r:
+        # the same question answered with the best fingering as a container of notes carrying their (string, fret)
+        best = ctx.ok("find_chord_fingering/best", t.find_chord_fingering, list(names), md, maxfret, maxfing, True)
+        if not failed(best):
+            pos = [(getattr(x, "string", None), getattr(x, "fret", None)) for x in best]
+            what = lambda: "%r: best fingering as notes %r (list form starts with %r)" % (case, pos, r[0])  # noqa
+            if ctx.check(all(isinstance(s_, int) and isinstance(f_, int) and 0 <= s_ < len(op) and 0 <= f_ <= maxfret for s_, f_ in pos) and
+                         len({s_ for s_, _ in pos}) == len(pos) and pos, "chord_fingering/best/positions", what):
+                snd = {(op[s_] + f_) % 12 for s_, f_ in pos}
+                ctx.check(snd <= pcs, "chord_fingering/best/foreign-pitch-class", what)
+                ctx.check(snd >= pcs, "chord_fingering/best/chord-note-missing", what)
+                non = [f_ for _, f_ in pos if f_]
+                if non:
+                    ctx.check(max(non) - min(non) < md, "chord_fingering/best/span", what)
+                    ctx.check(len(set(non)) <= maxfing, "chord_fingering/best/fingers", what)
     ctx.note_case(len(r) > 0, ["chord_fingering:%s" % ("some" if r else "none")])
 
 
@@ -313,17 +328,30 @@ def check_tab(ctx, case):
     # bars / tracks / compositions
     tracks = case["tracks"] if kind == "comp" else [case["tracks"][0]]
     built, descs, ops = [], [], []
+    shared_bar = [False]
     for k, tr in enumerate(tracks):
         tt = plain[(ti + 7 * k) % len(plain)] if kind == "comp" else t
         o = _open(tt)
         track = Track()
         track.set_tuning(plain[(ti + 11) % len(plain)] if (kind == "track" and case.get("other_own_tuning") and not case.get("use_track_tuning")) else tt)
         desc = []
-        for bd in tr:
+        share = kind == "comp" and case.get("share_bar")
+        for bi, bd in enumerate(tr):
+            if share and k > 0 and bi == 0:
+                # the very same Bar object also stands at the head of this track (played on another tuning), when every one of its
+                # single notes can be played there
+                first = descs[0][0]
+                if all(ps is None or any(0 <= ps[0] - o_ <= 24 for o_ in o) for (_, ps) in first[1]):
+                    track.add_bar(built[0].bars[0])
+                    desc.append(first)
+                    shared_bar[0] = True
+                    continue
             b = Bar("C", (bd["meter"][0], bd["meter"][1]))
             es = []
             for e in bd["entries"]:
                 ps = _entry_pitches(o, e["pos"]) if e["pos"] else None
+                if share and k == 0 and bi == 0 and ps:
+                    ps = ps[:1]
                 if not b.place_notes(NoteContainer([Note(p) for p in ps]) if ps else None, RV.number(e["v"])):
                     break
                 es.append((e["v"], ps))
@@ -369,7 +397,8 @@ def check_tab(ctx, case):
                 kind, t.instrument, width, k, exp[:8], ents[:8], text[:1500]))
         two_digit = two_digit or any(re_two(l) for l in lines)
     nbars = sum(len(d) for d in descs)
-    ctx.note_case(wide and (two_digit or nbars >= 2), ["tab:" + kind, "tab:decoded" if wide else "tab:too-narrow-for-decoding"])
+    ctx.note_case(wide and (two_digit or nbars >= 2), ["tab:" + kind, "tab:decoded" if wide else "tab:too-narrow-for-decoding"] +
+                  (["tab:one-bar-object-in-two-tracks"] if shared_bar[0] else []))
 
 
 def re_two(line):
@@ -485,7 +514,7 @@ def _tab_st():
                                    "force": st.sampled_from([None, "same", "other", "other"]), "force_pick": st.integers(0, 5)})
     big = st.fixed_dictionaries({"kind": st.sampled_from(["bar", "track", "track", "comp"]), "tuning": st.integers(0, 100), "width": width,
                                  "tracks": st.lists(track, min_size=1, max_size=3), "use_track_tuning": st.booleans(),
-                                 "other_own_tuning": st.booleans()})
+                                 "other_own_tuning": st.booleans(), "share_bar": st.booleans()})
     return st.one_of(small, big, big)
 
 
